@@ -276,19 +276,43 @@ func init() {
 			// Fix: down, and up only when it did not move
 			fix := r.P.Func("util/ds", "(*Heap).Fix")
 			fi := fix.Pkg.TypesInfo
-			okFix := false
-			inspect(fix.Decl.Body, func(nd ast.Node) bool {
-				if is, ok := nd.(*ast.IfStmt); ok {
-					if u, ok := ast.Unparen(is.Cond).(*ast.UnaryExpr); ok && u.Op == token.NOT && r.exprCalls(fi, u.X, down) && r.exprCalls(fi, is.Body, up) {
-						okFix = true
+			// on every path for a valid index: down(i) is called, and when it reports "did not move"
+			// up(i) follows (in whatever arrangement of guards)
+			_ = fi
+			fixSpec := &pathsim.Spec{
+				Atom: func(c *pathsim.Ctx, e ast.Expr) (int, bool, bool) {
+					e = ast.Unparen(e)
+					if call, ok := e.(*ast.CallExpr); ok && c.P.CalleeFunc(c.Info, call) == down {
+						return 0, false, true
 					}
-				}
-				return true
-			})
-			r.Site(fix.Decl.Pos(), "Heap.Fix sifts down, else up")
-			if !okFix {
-				r.Fail(fix.Name()+":shape", fix.Decl.Pos(), nil, "Heap.Fix must sift the element down and, if it did not move, up")
+					if b, ok := e.(*ast.BinaryExpr); ok && (b.Op == token.EQL || b.Op == token.NEQ) && r.isParam(fix, b.X, 0) {
+						if tv, ok := c.Info.Types[b.Y]; ok && tv.Value != nil && tv.Value.String() == "-1" {
+							return 1, b.Op == token.NEQ, true
+						}
+					}
+					return 0, false, false
+				},
+				Step: func(c *pathsim.Ctx, s pathsim.State, ev *pathsim.Event) []pathsim.State {
+					switch {
+					case callTo(down)(c, ev):
+						s.B = 1
+						return []pathsim.State{s}
+					case callTo(up)(c, ev):
+						s.A = 1
+						return []pathsim.State{s}
+					case ev.Kind == pathsim.EvReturn || ev.Kind == pathsim.EvExit:
+						if s.V[1] == pathsim.True {
+							return nil // not in the heap
+						}
+						if s.B == 0 || (s.V[0] != pathsim.True && s.A == 0) {
+							c.Violate(ev.Pos, "[shape] Heap.Fix must sift the element down and, if it did not move, up")
+						}
+					}
+					return nil
+				},
 			}
+			r.Sim(fix.Decl, fix.Name(), fixSpec)
+			r.Site(fix.Decl.Pos(), "Heap.Fix sifts down, else up")
 		}})
 
 	register(&Obligation{ID: "C19.e", Props: []string{"C19", "C15", "C18"}, Template: "paired-update",
